@@ -233,10 +233,14 @@ class Fleet:
             if len(pys) != 1:
                 raise HarnessError("the Python renderer returned %r" % (outs,))
             if need_py:
+                # (no byte code for generated modules: they live in a unique scratch directory,
+                # so every fleet would leave its own entries in the byte-code cache for ever)
                 sys.path.insert(0, d)
+                old_dwb, sys.dont_write_bytecode = sys.dont_write_bytecode, True
                 try:
                     self.py[i] = PyCodec(pys[0], "v%d" % i)
                 finally:
+                    sys.dont_write_bytecode = old_dwb
                     sys.path.remove(d)
             if need_c:
                 with _Sys("compile v%d c" % i):
